@@ -190,7 +190,11 @@ func rRef(w bool, r *MRef) string {
 }
 
 func rTy(w bool, t *MTy) string {
-	s := fmt.Sprintf("%s#%d", t.Name, t.Cat)
+	s := t.Name
+	if w {
+		// after a failed re-resolution the categories of the aborted file are unspecified
+		s = fmt.Sprintf("%s#%d", t.Name, t.Cat)
+	}
 	if t.IsTd {
 		s += "t"
 	}
